@@ -642,7 +642,7 @@ def gen_C11(tier, seed, unit, nunits):
             pass
     return out
 
-import gen_ext_ops, gen_ext_from, gen_ext_bits, gen_ext_serde
+import gen_ext_ops, gen_ext_from, gen_ext_bits, gen_ext_serde, gen_ext_cast
 def gen_C10x(tier, seed, unit, nunits):
     """C10 requests + the serde representation through serde_json / serde_cbor (tools/gen_ext_serde.py)"""
     out = dict(gen_C10(tier, seed, unit, nunits))
@@ -654,6 +654,9 @@ def gen_C05x(tier, seed, unit, nunits):
     out = dict(gen_C05(tier, seed, unit, nunits))
     for b, lines in gen_ext_from.gen(tier, seed, unit, nunits).items():
         out.setdefault(b, []).extend(l for l in lines if l.startswith('fcvt_'))
+    # the `az` float casts of src/cast.rs (feature az; tools/gen_ext_cast.py)
+    for b, lines in gen_ext_cast.gen(tier, seed, unit, nunits).items():
+        out.setdefault(b, []).extend(l for l in lines if l.startswith('azf_'))
     return out
 def gen_C07x(tier, seed, unit, nunits):
     """C07 requests + the integer-remainder forms and `%` impl variants of tools/gen_ext_bits.py"""
@@ -669,6 +672,9 @@ def gen_C04x(tier, seed, unit, nunits):
     out = dict(gen_C04(tier, seed, unit, nunits))
     for b, lines in gen_ext_from.gen(tier, seed, unit, nunits).items():
         out.setdefault(b, []).extend(lines)
+    # the `az` casts fixed <-> fixed / integer / bool of src/cast.rs (feature az; tools/gen_ext_cast.py)
+    for b, lines in gen_ext_cast.gen(tier, seed, unit, nunits).items():
+        out.setdefault(b, []).extend(l for l in lines if not l.startswith('azf_'))
     return out
 def gen_C02x(tier, seed, unit, nunits):
     """C02 requests + the operator trait impls of plain F in every variant (`fprog`, tools/gen_ext_ops.py)"""
@@ -690,8 +696,8 @@ PROPS = {
                      'non-trivial = operand magnitude > 1 or a byte-string argument',
                 assumptions=['serde: exercised through serde_json 1.0.151 / serde_cbor 0.11.2 with default features only; little-endian target for *_ne_bytes']),
     'C03': dict(lean_modules=['SfxProps.C03'], bins=['conv'], profiles=['rel'], gen=gen_C03),
-    'C04': dict(lean_modules=['SfxProps.C04', 'SfxProps.C04Prim'], bins=['conv'], profiles=['chk', 'rel'], gen=gen_C04x),
-    'C05': dict(lean_modules=['SfxProps.C05'], bins=['conv'], profiles=['chk', 'rel'], gen=gen_C05x),
+    'C04': dict(lean_modules=['SfxProps.C04', 'SfxProps.C04Prim', 'SfxProps.C04Cast'], bins=['conv', 'cast'], profiles=['chk', 'rel'], gen=gen_C04x),
+    'C05': dict(lean_modules=['SfxProps.C05', 'SfxProps.C04Cast'], bins=['conv', 'cast'], profiles=['chk', 'rel'], gen=gen_C05x),
     'C12': dict(lean_modules=['SfxProps.C12', 'SfxProps.C12Tan', 'SfxProps.C12Pairs'], bins=['math'], profiles=['chk', 'rel'], gen=gen_C12),
     'C13': dict(lean_modules=['SfxProps.C13', 'SfxProps.C13Real'], bins=['math'], profiles=['rel'], gen=gen_C13, oracle=True),
     'C14': dict(lean_modules=['SfxProps.C14'], bins=['math'], profiles=['rel'], gen=gen_C14, oracle=True),
@@ -700,7 +706,7 @@ PROPS = {
     'C17': dict(lean_modules=['SfxProps.C17'], bins=['math'], profiles=['rel'], gen=gen_C17),
     'C08': dict(lean_modules=['SfxProps.C08', 'SfxProps.C08Holds'], bins=['text'], profiles=['chk', 'rel'], gen=gen_C08),
     'C09': dict(lean_modules=['SfxProps.C09', 'SfxProps.C09Verdict'], bins=['text'], profiles=['chk', 'rel'], gen=gen_C09),
-    'C11': dict(lean_modules=['SfxProps.C11', 'SfxProps.C11Bits'], bins=['arith', 'wrap', 'conv', 'math', 'text', 'codec'], profiles=['chk', 'rel'], gen=gen_C11,
+    'C11': dict(lean_modules=['SfxProps.C11', 'SfxProps.C11Bits'], bins=['arith', 'wrap', 'conv', 'math', 'text', 'codec', 'cast'], profiles=['chk', 'rel'], gen=gen_C11,
                 rule='union of the request corpora of C01 C02 C06 C07 C18 C04 C05 C03 C12 C08 C09 C10 and the shift/bit-inspection family (sub-sampled in quick), each request executed by the harness built with and '
                      'without debug assertions/overflow checks and compared with the model projections; non-trivial = some operand magnitude > 1'),
     'C02': dict(lean_modules=['SfxProps.C02', 'SfxProps.C02Ops'], bins=['arith', 'wrap'], profiles=['chk', 'rel'], gen=gen_C02x, thorough_all_fracs=True),
